@@ -96,3 +96,128 @@ def call(ex, f, args, node):
     if cb is None:
         raise Unsupported("no callback contract for listeners")
     return cb.apply(ex, f, args, node)
+
+
+# ---------------------------------------------------------------------------
+# WebSocketServer.send(mtype, **kwargs) and the listener callbacks
+# ---------------------------------------------------------------------------
+
+class VFrameMap(V):
+    """**kwargs of send() as an abstract frame (key -> FV)"""
+
+    def __init__(self, t):
+        self.t = t
+
+
+def frame_of(ex, mtype, kwargs, tx, node):
+    fr = H.EMPTY_FRAME
+    for k in sorted(kwargs):
+        fr = Store(fr, S(k), to_fv(ex, kwargs[k], node))
+    fr = Store(fr, S("type"), to_fv(ex, mtype, node))
+    fr = Store(fr, S("server_tx"), H.FV.fnum(tx))
+    return fr
+
+
+def apply_send(ex, recv, args, kwargs, node):
+    """call-site contract of WebSocketServer.send: append kw + {type, server_tx}
+    to out[self]; requires Clean (C09). Verified against the real body by the
+    function `server_websocket.WebSocketServer.send`."""
+    if len(args) != 1:
+        raise Unsupported("send() arity at %d" % node.lineno)
+    tx = ex.clock().t
+    emit(ex, recv.t, frame_of(ex, args[0], kwargs, tx, node), node)
+    return VConst(None)
+
+
+def message_frame(ex, sm, tx, node):
+    f = sm.fields
+    return frame_of(ex, VConst("message"), {"side": f["side"], "phase": f["phase"], "body": f["body"],
+                                            "server_rx": f["server_rx"], "id": f["msg_id"]}, tx, node)
+
+
+STOP_EFFECT = "none"    # what stop_f() does (see DESIGN F5)
+
+
+class ListenerCallbacks:
+    """callback contract of the (send_f, stop_f) pairs stored in Mailbox._listeners:
+    send_f(sm) appends message(sm) to out[handle] and nothing else; stop_f() has
+    the effect STOP_EFFECT on the handle."""
+
+    def apply(self, ex, f, args, node):
+        if f.which == "send":
+            if len(args) != 1 or not isinstance(args[0], VNamed):
+                raise Unsupported("send_f argument at %d" % node.lineno)
+            tx = ex.clock().t
+            emit(ex, f.handle, message_frame(ex, args[0], tx, node), node)
+            return VConst(None)
+        if f.which == "stop":
+            stop_effect(ex, f.handle)
+            return VConst(None)
+        raise Unsupported("callback %s" % f.which)
+
+    def check(self, ex, handle, send_f, stop_f, node):
+        for which, f in (("send", send_f), ("stop", stop_f)):
+            if isinstance(f, VCallback):
+                ok = f.which == which and f.handle.eq(handle.t)
+                ex.oblige("registers.%s_f@%d" % (which, node.lineno), BoolVal(ok), ["C02"], node.lineno, "callback")
+                continue
+            if not isinstance(f, VClosure):
+                raise Unsupported("listener callback is not a closure at %d" % node.lineno)
+            self.check_closure(ex, which, handle, f, node)
+
+    def check_closure(self, ex, which, handle, f, node):
+        from .contract import make_symbolic
+        from .state import comp_eq, ident
+        saved = ex.st.copy()
+        npc = len(ex.p.pc)
+        nobl = len(ex.p.obls)
+        clock = ex.last_clock
+        # the callback may be invoked in any later state in which Clean holds
+        for comp in ex.st.components():
+            ex.st.havoc(comp, "cb")
+        ex.assume(And(Not(ex.st.in_tx["ch"]), Not(ex.st.in_tx["us"])))
+        before = ex.st.copy()
+        if which == "send":
+            sm, facts = make_symbolic("sm", "cb.sm")
+            ex.call_closure(f, [sm], {}, node)
+            want = before.copy()
+            n = before.out_len[handle.t]
+            tx = H.FV.x(ex.st.out_buf[handle.t][n][S("server_tx")])
+            want.out_buf = Store(before.out_buf, handle.t, Store(before.out_buf[handle.t], n,
+                                                                 message_frame(ex, sm, tx, node)))
+            want.out_len = Store(before.out_len, handle.t, n + 1)
+        else:
+            ex.call_closure(f, [], {}, node)
+            want = before.copy()
+            tmp = ex.st
+            ex.st = want
+            stop_effect(ex, handle.t)
+            ex.st = tmp
+        for name in ex.st.components():
+            a, b = want.get_comp(name), ex.st.get_comp(name)
+            if ident(a, b):
+                continue
+            ex.oblige("registers.%s_f.effect.%s@%d" % (which, name, node.lineno), comp_eq(name, a, b),
+                      ["C02", "C01"], node.lineno, "callback")
+        # obligations generated while executing the closure keep their local facts
+        for o in ex.p.obls[nobl:]:
+            o.extra_hyps = list(ex.p.pc[npc:o.nhyps]) + o.extra_hyps
+            o.nhyps = npc
+        del ex.p.pc[npc:]
+        ex.st = saved
+        ex.last_clock = clock
+
+
+def stop_effect(ex, h):
+    if STOP_EFFECT == "none":
+        return
+    if STOP_EFFECT == "drop_handle":
+        hp = ex.st.heap
+        hp["WebSocketServer._mailbox"] = Store(hp["WebSocketServer._mailbox"], h, 0)
+        hp["WebSocketServer._listening"] = Store(hp["WebSocketServer._listening"], h, False)
+        return
+    raise Unsupported(STOP_EFFECT)
+
+
+from .contract import REGISTRY  # noqa: E402
+REGISTRY["callback.listener"] = ListenerCallbacks()
